@@ -173,6 +173,10 @@ def faults():
         add("ref-unknown-column", {"SIDECAR_BRACES_INVALID"}, set_at(B, (col, "HED", key), "Red, {nope}"))
         add("ref-non-hed-column", {"SIDECAR_BRACES_INVALID"}, set_at(B, (col, "HED", key), "Red, {ign}"))
     add("ref-unknown-column", {"SIDECAR_BRACES_INVALID"}, set_at(B, ("val", "HED"), "Label/#, {nope}"))
+    # 8b braces around something that is not (and cannot be) the name of a column
+    for col, key in (("cat", "a"), ("other", "y")):
+        for ref in ("{no such}", "{nosuch.col}", "{\u00e9t\u00e9}", "{x/y}"):
+            add("ref-not-a-column-name", {"SIDECAR_BRACES_INVALID"}, set_at(B, (col, "HED", key), "Red, " + ref))
     # 9 self reference
     add("ref-self", {"SIDECAR_BRACES_INVALID"}, set_at(B, ("cat", "HED", "a"), "Red, {cat}"))
     add("ref-self", {"SIDECAR_BRACES_INVALID"}, set_at(B, ("val", "HED"), "Label/#, {val}"))
